@@ -331,11 +331,16 @@ impl Store {
 
         // Handle broadcast subscription and heartbeat
         if let Some(broadcast_rx) = broadcast_rx {
+            // Dropped when the live task ends, which also ends the heartbeat
+            let (live_done_tx, mut live_done_rx) = tokio::sync::oneshot::channel::<()>();
+
             {
                 let tx = tx.clone();
                 let limit = options.limit;
 
                 tokio::spawn(async move {
+                    let _live_done_tx = live_done_tx;
+
                     // If we have a done_rx, wait for historical processing
                     let (last_id, mut count) = match done_rx {
                         Some(done_rx) => match done_rx.await {
@@ -393,7 +398,10 @@ impl Store {
                 let heartbeat_tx = tx;
                 tokio::spawn(async move {
                     loop {
-                        tokio::time::sleep(duration).await;
+                        tokio::select! {
+                            _ = tokio::time::sleep(duration) => {}
+                            _ = &mut live_done_rx => break,
+                        }
                         let frame =
                             Frame::builder("xs.pulse", options.context_id.unwrap_or(ZERO_CONTEXT))
                                 .id(scru128::new())
